@@ -89,3 +89,70 @@ pub async fn route_key_persistent(workers: &[(usize, Vec<u64>, Vec<u64>)], key: 
     }
     out.join(";")
 }
+
+/// as `route_key_persistent`, with the router named ("key_persistent" | "sticky"; the sticky router's deque lists the idle workers)
+pub async fn route_step(router: &str, workers: &[(usize, Vec<u64>, Vec<u64>)], key: u64, pool_size: usize, hint: Option<usize>) -> String {
+    if router != "sticky" {
+        return route_key_persistent(workers, key, pool_size, hint).await;
+    }
+    let mut pool = HashMap::new();
+    let mut r: StickyQueuerRouting<u64, u64> = StickyQueuerRouting::default();
+    for (wid, q, c) in workers {
+        let (rec, _got, _r) = wp::record_logging_at(*wid, q, c, false).await;
+        pool.insert(*wid, rec);
+        r.on_worker_availability_change(*wid, q.is_empty() && c.is_empty());
+    }
+    let res = match r.route_message(wp::job(key, 100), pool_size, hint, &mut pool) {
+        Ok(RouteResult::Handled) => "handled",
+        Ok(RouteResult::Backlog(_)) => "backlog",
+        Ok(RouteResult::RateLimited(_)) => "ratelimited",
+        Err(_) => "err",
+    };
+    let mut out = vec![format!("res={res}")];
+    let mut wids: Vec<usize> = pool.keys().copied().collect();
+    wids.sort();
+    for w in wids {
+        out.push(format!("w{}={}", w, wp::books_of(&pool[&w])));
+    }
+    for (_, w) in pool.drain() {
+        w.actor.stop(None);
+    }
+    out.join(";")
+}
+
+/// The window between a worker's death and its replacement, through the real router and worker records: two idle workers, worker 0's actor has
+/// exited (its supervision event is still on its way); two jobs of one key are routed; then worker 0 is replaced.
+/// Returns "first=<books of w0>|<books of w1>;second=..;replaced=.." (books as in `books_of`).
+pub async fn dead_worker_window(router: &str) -> String {
+    let mut pool = HashMap::new();
+    for wid in 0..2usize {
+        let (rec, _got, _r) = wp::record_logging_at(wid, &[], &[], false).await;
+        pool.insert(wid, rec);
+    }
+    // worker 0 exits; the factory has not processed its supervision event yet
+    {
+        let w0 = pool.get_mut(&0).unwrap();
+        w0.actor.stop(None);
+        if let Some(h) = w0.get_join_handle() {
+            let _ = h.await;
+        }
+    }
+    let books = |pool: &HashMap<WorkerId, WorkerProperties<u64, u64>>| format!("{}|{}", wp::books_of(&pool[&0]), wp::books_of(&pool[&1]));
+    let mut out = Vec::new();
+    let mut kp: KeyPersistentRouting<u64, u64> = KeyPersistentRouting::default();
+    let mut st: StickyQueuerRouting<u64, u64> = StickyQueuerRouting::default();
+    st.on_worker_availability_change(0, true);
+    st.on_worker_availability_change(1, true);
+    for (label, msg) in [("first", 100u64), ("second", 101u64)] {
+        // the key hashes to worker 0 for the key-persistent router (hint 0 stands for the hash); the sticky router takes the first idle worker
+        let _ = if router == "sticky" { st.route_message(wp::job(5, msg), 2, None, &mut pool) } else { kp.route_message(wp::job(5, msg), 2, Some(0), &mut pool) };
+        out.push(format!("{label}={}", books(&pool)));
+    }
+    let (actor, handle) = crate::Actor::spawn(None, wp::NullWorker, ()).await.expect("worker");
+    let _ = pool.get_mut(&0).unwrap().replace_worker(actor, handle);
+    out.push(format!("replaced={}", books(&pool)));
+    for (_, w) in pool.drain() {
+        w.actor.stop(None);
+    }
+    out.join(";")
+}
